@@ -432,3 +432,87 @@ Example afinal_example :
 Proof.
   simpl. split; [lia|]. split; [repeat constructor|]. split; reflexivity.
 Qed.
+Section Sim.
+Variable isg : Z -> bool.
+Variables (evt vals : list Z).
+
+Lemma nth_upd_eq {A} (l : list A) i v d : (i < length l)%nat -> nth i (upd l i v) d = v.
+Proof. revert i. induction l as [|x l IH]; intros [|i] H; simpl in *; try lia; [reflexivity|]. apply IH. lia. Qed.
+Lemma nth_upd_neq {A} (l : list A) i j v d : i <> j -> nth i (upd l j v) d = nth i l d.
+Proof. revert i j. induction l as [|x l IH]; intros [|i] [|j] H; simpl; try reflexivity; try lia. apply IH. lia. Qed.
+Lemma upd_length {A} (l : list A) i v : length (upd l i v) = length l.
+Proof. revert i. induction l as [|x l IH]; intros [|i]; simpl; auto. Qed.
+Lemma nth_map_lt {A B} (f : A -> B) l i d d' : (i < length l)%nat -> nth i (map f l) d' = f (nth i l d).
+Proof. intro H. rewrite (nth_indep _ d' (f d)) by (rewrite map_length; exact H). apply map_nth. Qed.
+
+Definition prs (e : list Z) (o : list nat) := map (fun i => (nth i vals 0, nth i e 0)) o.
+
+Lemma prs_upd e o j v : Forall (fun i => (i < j)%nat) o -> prs (upd e j v) o = prs e o.
+Proof.
+  intro H. unfold prs. apply map_ext_in. intros i Hi. rewrite Forall_forall in H. specialize (H i Hi).
+  rewrite nth_upd_neq by lia. reflexivity.
+Qed.
+Lemma prs_snoc e o i : prs e (o ++ [i]) = prs e o ++ [(nth i vals 0, nth i e 0)].
+Proof. unfold prs. rewrite map_app. reflexivity. Qed.
+
+Definition R (ce : nat) (s : gst) (a : ast) : Prop :=
+  (1 <= ce)%nat /\ pd s = apd a /\ (pw s < ce)%nat /\
+  nth (pw s) (evm s) 0 = ad a /\ nth (pw s) vals 0 = av a /\
+  Nat.eqb (ce - 1) (pw s) = alast a /\
+  nth (ce - 1) vals 0 = lv a /\ nth (ce - 1) evt 0 = apd a /\
+  (forall i, (ce - 1 <= i)%nat -> nth i (evm s) 0 = nth i evt 0) /\ length (evm s) = length evt /\
+  prs (evm s) (out s) = aout a /\ Forall (fun i => (i < ce - 1)%nat) (out s).
+
+Lemma Forall_lt_weaken (o : list nat) a b : (a <= b)%nat -> Forall (fun i => (i < a)%nat) o -> Forall (fun i => (i < b)%nat) o.
+Proof. intros H F. eapply Forall_impl; [|exact F]. simpl. intros. lia. Qed.
+Lemma Forall_lt_snoc (o : list nat) a b i : (a <= b)%nat -> (i < b)%nat -> Forall (fun i => (i < a)%nat) o -> Forall (fun i => (i < b)%nat) (o ++ [i]).
+Proof. intros H Hi F. apply Forall_app. split; [exact (Forall_lt_weaken o a b H F)|constructor; [exact Hi|constructor]]. Qed.
+
+Ltac simfin ce Hun :=
+  cbn [pw pd evm out ad av alast lv apd aout];
+  rewrite ?upd_length, ?prs_snoc, ?Nat.eqb_refl;
+  rewrite ?prs_upd by (try apply Forall_lt_snoc with (a := (ce - 1)%nat); auto; lia);
+  rewrite ?nth_upd_eq by lia; rewrite ?nth_upd_neq by lia;
+  (split; [lia|]; split; [try reflexivity; try assumption; try lia|]; split; [lia|]; split; [try assumption; try lia|];
+   split; [try assumption; try reflexivity|]; split; [try reflexivity; try (apply Nat.eqb_neq; lia)|];
+   split; [reflexivity|]; split; [try reflexivity; try lia|];
+   split; [intros i Hi; rewrite ?nth_upd_neq by lia; apply Hun; lia|]; split; [assumption|];
+   split; [try congruence|]);
+  try (eapply Forall_lt_weaken; [|eassumption]; lia);
+  try (apply Forall_lt_snoc with (a := (ce - 1)%nat); [lia|lia|]; try assumption);
+  try (apply Forall_lt_snoc with (a := (ce - 1)%nat); [lia|lia|]; try assumption).
+
+Lemma sim_step ce s a : R ce s a -> (ce < length evt)%nat -> (length vals + 1 = length evt)%nat ->
+  apd a <= nth ce evt 0 ->
+  R (S ce) (gstep (map isg vals) s ce (nth ce evt 0))
+           (astep isg a (nth ce evt 0) (nth ce vals 0) (ce <? length vals)%nat).
+Proof.
+  intros [H1 [Hpd [Hpw [Had [Hav [Hal [Hlv [Hes [Hun [Hlen [Hout Hfo]]]]]]]]]]] Hce Hlen2 Hle.
+  set (cd := nth ce evt 0) in *.
+  assert (Hg1 : nth (pw s) (map isg vals) false = isg (av a)).
+  { rewrite <- Hav. apply nth_map_lt. lia. }
+  assert (Hg2 : (ce <? length (map isg vals))%nat && nth ce (map isg vals) false
+                = (ce <? length vals)%nat && isg (nth ce vals 0)).
+  { rewrite map_length. destruct (ce <? length vals)%nat eqn:E; [|reflexivity]. simpl.
+    apply nth_map_lt. apply Nat.ltb_lt. exact E. }
+  assert (Hese : nth (ce - 1) (evm s) 0 = apd a) by (rewrite Hun; [exact Hes|lia]).
+  assert (Hcee : nth ce (evm s) 0 = cd) by (rewrite Hun; [reflexivity|lia]).
+  assert (Hesl : (ce - 1 < length (evm s))%nat) by lia.
+  assert (HS : (S ce - 1 = ce)%nat) by lia.
+  unfold gstep, astep. rewrite Hg2, Hpd. unfold R. rewrite HS.
+  destruct (apd a <? cd) eqn:Ecd.
+  - unfold abound. rewrite Hg1.
+    destruct (isg (av a)) eqn:Eg.
+    + rewrite Had.
+      destruct (Nat.eqb (ce - 1) (pw s)) eqn:Epw; [apply Nat.eqb_eq in Epw | apply Nat.eqb_neq in Epw]; rewrite <- Hal;
+      destruct ((apd a <=? ad a) && (ad a <? cd)) eqn:Ey;
+      rewrite ?Hese; try destruct (apd a + 1 <? cd) eqn:Ep;
+      destruct ((ce <? length vals)%nat && isg (nth ce vals 0)) eqn:Egc;
+      simfin ce Hun.
+    + rewrite Hese, Nat.eqb_refl.
+      replace ((apd a <=? apd a) && (apd a <? cd)) with true by lia.
+      destruct ((ce <? length vals)%nat && isg (nth ce vals 0)) eqn:Egc; simfin ce Hun.
+  - assert (Heq : apd a = cd) by lia.
+    destruct ((ce <? length vals)%nat && isg (nth ce vals 0)) eqn:Egc; simfin ce Hun.
+Qed.
+End Sim.
